@@ -141,7 +141,7 @@ def _trace_modules(base, varnames, traces, initpred, actions, tag, invs=()):
         bindcur=' /\\ '.join('%s = r.%s' % (v, v) for v in varnames),
         bindnxt=' /\\ '.join("%s' = r.%s" % (v, v) for v in varnames),
         initpred=initpred, vars=', '.join(varnames),
-        actdisj=' \\/ '.join('(a.n = "%s" /\\ %s)' % (n, ('%s(%s)' % (n, ', '.join('a.' + p for p in ps))) if ps else n)
+        actdisj='FALSE' if not actions else ' \\/ '.join('(a.n = "%s" /\\ %s)' % (n, ('%s(%s)' % (n, ', '.join('a.' + p for p in ps))) if ps else n)
                              for n, ps in actions.items()),
         invs='')
     cfg = 'SPECIFICATION TSpec\nCONSTRAINT TReg\nPOSTCONDITION TPost\nCHECK_DEADLOCK FALSE\n'
